@@ -17,12 +17,18 @@ import (
 // If BIP39_VERIF_FRAG is also set to an integer seed, response bodies are
 // delivered the way a network delivers them: in short reads of seeded sizes,
 // the last bytes possibly together with io.EOF.
+//
+// If BIP39_VERIF_NOLEN is set, responses carry no length (ContentLength -1, no
+// Content-Length header), as a compressed or chunked delivery does.
 func init() {
 	if dir := os.Getenv("BIP39_VERIF_UPSTREAM"); dir != "" {
 		var rt http.RoundTripper = http.NewFileTransport(http.Dir(dir))
 		if s := os.Getenv("BIP39_VERIF_FRAG"); s != "" {
 			seed, _ := strconv.ParseUint(s, 10, 64)
 			rt = &verifFragTransport{rt: rt, seed: seed}
+		}
+		if os.Getenv("BIP39_VERIF_NOLEN") != "" {
+			rt = verifNoLenTransport{rt}
 		}
 		http.DefaultTransport = rt
 	}
@@ -79,3 +85,14 @@ func (b *verifFragBody) Read(p []byte) (int, error) {
 }
 
 func (b *verifFragBody) Close() error { return nil }
+
+type verifNoLenTransport struct{ rt http.RoundTripper }
+
+func (t verifNoLenTransport) RoundTrip(req *http.Request) (*http.Response, error) {
+	resp, err := t.rt.RoundTrip(req)
+	if err == nil && resp != nil {
+		resp.ContentLength = -1
+		resp.Header.Del("Content-Length")
+	}
+	return resp, err
+}
